@@ -18,7 +18,7 @@ RULE = ("class shapes = base class + registered subclass with members of every k
         "non-trivial = the name is a member of the shape or a variant of one")
 ASSUMPTIONS = ["classes with their own __getattr__/metaclass tricks are outside the quantifier", "'refused' = an exception reply of any type (no reply for oneway)",
                "a call-kind request naming an *exposed* property may run that property's getter before being refused"]
-REQUIRED_REACH = ["served_ok", "refused_ok", "oneway_checked", "metadata_checked", "nonstring_names", "decoration_refusals"]
+REQUIRED_REACH = ["surplus_argument_requests", "served_ok", "refused_ok", "oneway_checked", "metadata_checked", "nonstring_names", "decoration_refusals"]
 SHARD_TIMEOUT = {"quick": 240, "thorough": 2800}
 
 RESERVED = ["__init__", "__init_subclass__", "__class__", "__module__", "__weakref__", "__call__", "__new__", "__del__", "__repr__", "__str__",
@@ -29,7 +29,10 @@ RESERVED = ["__init__", "__init_subclass__", "__class__", "__module__", "__weakr
 EXTRA_DUNDERS = ["__dict__", "__doc__", "__len__", "__getitem__", "__iter__", "__slots__", "__mro__", "__base__", "__subclasses__", "__func__", "__self__", "__globals__",
                  "__code__", "__builtins__", "__annotations__", "__qualname__", "__wrapped__", "__closure__"]
 KINDS = ["method", "static", "classm", "prop_ro", "prop_rw", "cattr", "iattr", "helper"]
-REQ_KINDS = ["call", "batch", "oneway", "getattr", "setattr"]
+REQ_KINDS = ["call", "batch", "oneway", "getattr", "setattr", "getattr+", "setattr+"]
+# "getattr+" / "setattr+": attribute requests with one surplus positional argument (what a raw peer may send; the real Proxy never does)
+SURPLUS = [False, 0, None, "", True, 1]
+_surplus_i = [0]
 
 
 def is_private_model(name):
@@ -267,6 +270,12 @@ def do_request(sess, kind, name, rec):
             return "norep", None
         elif kind == "getattr":
             m = c.invoke("target", "__getattr__", (name,), {}, ser)
+        elif kind == "getattr+":
+            _surplus_i[0] += 1
+            m = c.invoke("target", "__getattr__", (name, SURPLUS[_surplus_i[0] % len(SURPLUS)]), {}, ser)
+        elif kind == "setattr+":
+            _surplus_i[0] += 1
+            m = c.invoke("target", "__setattr__", (name, "NEWVAL", SURPLUS[_surplus_i[0] % len(SURPLUS)]), {}, ser)
         else:
             m = c.invoke("target", "__setattr__", (name, "NEWVAL"), {}, ser)
     except (EOFError, OSError) as x:
@@ -289,7 +298,7 @@ def do_request(sess, kind, name, rec):
 def expected_log(kind, name):
     if kind in ("call", "batch", "oneway"):
         return [(name, ("A1",), ())]
-    if kind == "getattr":
+    if kind in ("getattr", "getattr+"):
         return [(name + ".get",)]
     return [(name + ".set", "NEWVAL")]
 
@@ -354,7 +363,7 @@ def run_shape(fx, shape, sername, rec, r, light=False):
             pay = dict(payload_base, name=name, kind=kind)
             if kind in ("call", "batch", "oneway"):
                 should = model.served_call(name)
-            elif kind == "getattr":
+            elif kind in ("getattr", "getattr+"):
                 should = model.served_read(name)
             else:
                 should = model.served_write(name)
@@ -370,6 +379,15 @@ def run_shape(fx, shape, sername, rec, r, light=False):
                 continue
             if kind == "oneway":
                 rec.count("oneway_checked")
+            if should and kind.endswith("+"):
+                # a malformed request for an exposed property: served or refused (arity) are both fine, only its own accessor may have run
+                if outcome not in ("served", "refused") or (log and log != expected_log(kind, name)):
+                    rec.violation("exposed-member-not-served", "%s request for exposed %r: outcome=%s log=%r" % (kind, name, outcome, log), pay)
+                    continue
+                rec.count("surplus_argument_requests")
+                continue
+            if kind.endswith("+"):
+                rec.count("surplus_argument_requests")
             if should:
                 want = expected_log(kind, name)
                 if log != want or (outcome not in ("served", "norep")):
